@@ -188,12 +188,13 @@ fn fix_scheds_single_via(kc: &KCase, ex: &mut KExec) {
     if s == t {
         return;
     }
-    let ok = matches!(ex.outcome, Outcome::Ok(_));
+    // a failed reverse run no longer fails the query: the result then carries the forward tree alone
+    let both_trees = matches!(&ex.outcome, Outcome::Ok(r) if r.trees.len() == 2);
     if ex.scheds.len() >= 2 {
         // the reverse run started, so the forward run returned Ok
         ex.scheds[0].push(t);
         // every failure after a successful reverse run happens inside the loop, after a recorded pop
-        if ok || !ex.pops.is_empty() {
+        if both_trees || !ex.pops.is_empty() {
             ex.scheds[1].push(s);
         }
     }
@@ -607,7 +608,8 @@ pub fn corpus() -> Vec<KCase> {
     c.base.target = Some(13);
     c.k_default = 3;
     v.push(c);
-    // turn restriction: the DESIGN §7 shape — single-via alternatives may take a listed turn
+    // turn restriction: the DESIGN §7 shape — single-via alternatives took a listed turn (repaired bfda969:
+    // the witness stays, a regression is a VIOLATION under the same key)
     v.push(restricted_turn_witness());
     // the reverse search validates turn pairs in the wrong order: 0 -e0-> 1 -e1-> 2 with the pair (e1, e0)
     // listed (a turn no route can take) — the reverse search refuses e0 after e1 and reports "no path"
@@ -758,8 +760,8 @@ fn two_by_three_grid() -> SCase {
 
 /// 0 -e0-> 1 -e1-> 4 (short) and 0 -e2-> 2 -e3-> 3 -e4-> 4 (long); the turn (3,4) is restricted.
 /// Plain Dijkstra never takes (3,4); the single-via alternative is the concatenation of the forward
-/// path to an intersection vertex and the reverse path from it, whose junction turn is never tested
-/// and whose reverse half was validated with the pair reversed.
+/// path to an intersection vertex and the reverse path from it, whose junction turn was never tested
+/// and whose reverse half was validated with the pair reversed — until bfda969 (`route_is_permitted`).
 pub fn restricted_turn_witness() -> KCase {
     let mut b = base_case(vec![(0, 1, 1.0), (1, 4, 1.0), (0, 2, 2.0), (2, 3, 2.0), (3, 4, 2.0)], 5, 0, 4);
     b.frontier = vec![Fr::TurnRestriction(vec![(3, 4)])];
